@@ -4,7 +4,7 @@
    one after the other through ONE shared pair of caches, exactly as the harness drove
    structs.ACLPolicies.Compile with one structs.ACLCaches.  For every token the harness recorded
    every acl.Authorizer method on every name of the universe: on the authorizer Compile returned,
-   and on the chains [that; DenyAll] and [that; AllowAll]. *)
+   and on the chains [that; DenyAll], [that; AllowAll] and [that; ManageAll]. *)
 From Verif Require Import Base.Prelude.
 From Verif Require Import ACL.Model.
 From Verif Require Import ACL.Identity.
@@ -39,7 +39,8 @@ Definition observe (names : list string) (a : authorizer) : list N :=
   let ms := methods names in
   map (fun m => dcode (policy_decide a m)) ms
   ++ map (fun m => dcode (chain_decide a deny_all m)) ms
-  ++ map (fun m => dcode (chain_decide a allow_all m)) ms.
+  ++ map (fun m => dcode (chain_decide a allow_all m)) ms
+  ++ map (fun m => dcode (chain_decide a manage_all m)) ms.
 
 Definition dummy_entry : pentry := PEntry 0 0 0 false (Policy PEmpty PEmpty PEmpty PEmpty PEmpty []).
 
